@@ -561,8 +561,8 @@ theorem sigint_abort_nonzero {v : Fan.Variant} {g sw : Bool} {f n t0 : Nat} {b :
 theorem inband_rc_any_chunking (cfg : Relay.Cfg) (hsk : cfg.rcSkipDigit = false) (hev : cfg.rcEveryLine = false)
     (t0host : Relay.Bytes) (t : ExitRelay.RelayTarget) (ht : t.ok) :
     (Relay.runStream Relay.fifoOps cfg t.host t0host 1 true t.b0 t.script).rc = t.code := by
-  obtain ⟨h1, h2, hb, hS, hroom, hU, hL, h0, hk⟩ := ht
-  rw [(Relay.runStream_fifo cfg t.host 1 true h1 h2 t0host hb t.script hroom).2, hS]
+  obtain ⟨hg, hb, hS, hroom, hU, hL, h0, hk⟩ := ht
+  rw [(Relay.runStream_fifo_ok cfg t.host 1 true hg t0host hb t.script hroom).2, hS]
   exact ExitRelay.afterLines_marker cfg hsk hev t.host 1 t.user t.late t.code hk hU hL h0
 
 /-- the same over the INDEX-level model of cbuf.c (the relay instance that is run against the real cbuf.c and
@@ -571,8 +571,8 @@ theorem inband_rc_any_chunking_index (cfg : Relay.Cfg) (hsk : cfg.rcSkipDigit = 
     (hev : cfg.rcEveryLine = false) (t0host : Relay.Bytes) (t : ExitRelay.RelayTarget) (ht : t.ok)
     (a0 : Cbuf.Cbuf) (ha : Relay.mkIndexBuf t.sizeMeta = some a0) :
     (Relay.runStream Relay.indexOps cfg t.host t0host 1 true a0 t.script).rc = t.code := by
-  have hm : 0 < t.sizeMeta := by have := ht.1; omega
-  have h := Relay.runStream_index_eq_fifo cfg t.host t0host 1 true hm ha ht.2.2.1 t.script
+  have hm : 0 < t.sizeMeta := Relay.growthOk_pos ht.1
+  have h := Relay.runStream_index_eq_fifo cfg t.host t0host 1 true hm ha ht.2.1 t.script
   rw [h.2]
   exact inband_rc_any_chunking cfg hsk hev t0host t ht
 
@@ -599,7 +599,7 @@ theorem inband_end_to_end (fx : Fixes) (hd8 : fx.d8 = true) (cfg : Relay.Cfg)
   · intro o ho
     simp only [List.mem_map] at ho
     obtain ⟨t, hm, rfl⟩ := ho
-    have := (hok t hm).2.2.2.2.2.2.2.2
+    have := (hok t hm).2.2.2.2.2.2.2
     show t.code ≤ 255
     omega
 
